@@ -99,6 +99,19 @@ func catalogue(w *world, check string) []kase {
 						f := faults.ContentFault(s, mut, ops[name], mode)
 						f.Timing = "early"
 						out = append(out, kase{Scenario: w.sc, Deviator: d, Slot: s, Path: nd.Path, Op: name + "@early", Menu: menu, fault: f})
+						// ... and under the schedule in which the victim lags a round behind (it has the others' messages of
+						// the next round queued before the last message of the current round arrives)
+						lg := faults.ContentFault(s, mut, ops[name], mode)
+						lg.Timing, lg.Victim = "lag", s.To
+						if lg.Victim == "" {
+							for _, id := range w.spec.IDs {
+								if id != d {
+									lg.Victim = id
+									break
+								}
+							}
+						}
+						out = append(out, kase{Scenario: w.sc, Deviator: d, Slot: s, Path: nd.Path, Op: name + "@lag", Menu: menu, fault: lg})
 					}
 					if check == "C05" && !s.Broadcast && alsoBroadcasts(w, s) && !(expensive && !vkitThorough()) {
 						// the same malformed p2p message presented after the sender's broadcast has been processed
